@@ -13,7 +13,7 @@ class Prop(PropBase):
             '(non-empty, h*w = n, height/is_dense as configured, seq consecutive, buffer = last non-null get answer, no stale marker, frame_id); non-trivial = >= 1 cloud')
     explanation = 'C06_T1..T4 (Coq: every session history passes scan; shape; null retry; no stale) + correspondence of cloud headers/buffer ids'
     assumptions = ['the caller never returns the buffer the driver currently holds (API contract)']
-    projection = {'kinds': {'cloud', 'get', 'open', 'crash', 'nodrv', 'err'}, 'ignore_ts': True, 'drop_points': True}
+    projection = {'kinds': {'cloud', 'get', 'open', 'crash', 'nodrv', 'err'}, 'ignore_ts': True, 'drop_points': True, 'err_codes': {'130'}}
 
     def generate(self, rng, tier):
         reps = 3 if tier == 'quick' else 25
